@@ -91,4 +91,6 @@ let run = function
     run_items [] items
   | _ -> "model-unknown-case"
 
+(* the model allocates long lists that die young: a large minor heap halves the run time *)
+let () = Gc.set { (Gc.get ()) with Gc.minor_heap_size = 8 * 1024 * 1024 }
 let () = main_loop run
